@@ -39,7 +39,8 @@ type SrvScenario struct {
 	Chunked   bool       `json:"chunked,omitempty"`    // every transfer of the scenario is chunked (BDAT)
 	ByContent bool       `json:"by_content,omitempty"` // the message's first line decides the verdict (accept…/reject…)
 	MaxBytes  int64      `json:"max_bytes,omitempty"`
-	Schedule  []string   `json:"schedule,omitempty"` // for replay
+	LogoutErr bool       `json:"logout_err,omitempty"` // the backend's Logout returns an error (which nobody has to look at)
+	Schedule  []string   `json:"schedule,omitempty"`   // for replay
 }
 
 type fakeListener struct {
@@ -130,6 +131,9 @@ func (w *srvWorld) Start(x *h.Exec) {
 	w.x = x
 	sc := w.sc
 	w.be = &h.Backend{LMTPSess: sc.LMTP, ByContent: sc.ByContent, ConcurrentClose: true}
+	if sc.LogoutErr {
+		w.be.LogoutErr = errors.New("backend: could not write the session log")
+	}
 	gateSet := map[string]bool{}
 	for _, g := range sc.Gates {
 		gateSet[g] = true
@@ -499,6 +503,11 @@ func c20Scenarios(tier string) []SrvScenario {
 		name := strings.Fields(strings.ReplaceAll(next[0], "<EOF>", "disconnect"))[0]
 		out = append(out, SrvScenario{Name: "F1-bdat-backend-panics-when-reader-ends-" + name, Accepts: []string{"conn"}, Clients: [][]string{append([]string{chunk}, next...)}, Admin: []string{"close"}, Gates: []string{"return"}, Plan: "panic-when-done", Chunked: true})
 	}
+	// a backend whose Logout returns an error: the connection is closed all the same
+	out = append(out, SrvScenario{Name: "F3-logout-returns-an-error-close", LogoutErr: true, Accepts: []string{"conn"}, Clients: [][]string{{"EHLO c.example\r\n", "NOOP\r\n"}}, Admin: []string{"close"}})
+	out = append(out, SrvScenario{Name: "F3-logout-returns-an-error-quit-shutdown", LogoutErr: true, Accepts: []string{"conn"}, Clients: [][]string{{"EHLO c.example\r\n", "QUIT\r\n"}}, Admin: []string{"shutdown"}})
+	// a long run of temporary Accept errors (the back-off reaches its cap and stays there), then a connection
+	out = append(out, SrvScenario{Name: "F4-accept-14-temporary-errors-then-conn", Accepts: []string{"temp", "temp", "temp", "temp", "temp", "temp", "temp", "temp", "temp", "temp", "temp", "temp", "temp", "temp", "conn"}, Clients: [][]string{{"EHLO c.example\r\n", "QUIT\r\n"}}, Admin: []string{"close"}})
 	// two listeners; the application has closed the first one itself, so its Close fails when the server stops
 	out = append(out, SrvScenario{Name: "F3-two-listeners-first-closed-by-app-then-close", Listeners: 2, Accepts: []string{"conn"}, Clients: [][]string{{"EHLO c.example\r\n"}}, Admin: []string{"lnclose", "close"}})
 	out = append(out, SrvScenario{Name: "F3-two-listeners-first-closed-by-app-then-shutdown", Listeners: 2, Accepts: []string{"conn"}, Clients: [][]string{{"EHLO c.example\r\n", "QUIT\r\n"}}, Admin: []string{"lnclose", "shutdown"}})
